@@ -55,7 +55,7 @@ def _row_class(raw):
 
 class Sim:
     def __init__(self, root):
-        _, role, start_out, S, T = root
+        _, role, start_out, S, T = root[:5]
         self.root = root
         from asyncfix import Journaler
 
@@ -63,6 +63,8 @@ class Sim:
         self.tmp = TmpDir()
         self.path = os.path.join(self.tmp.path, "j.db")
         self.w = World1(role, S=S, T=T, next_out=start_out, next_in=1, journal=Journaler(self.path))
+        if len(root) > 5 and root[5] == "discsend":
+            self.w.c.send_on_disconnect = True  # the application tries to send from its on_disconnect callback
         self.ref_next = start_out  # number the next NEW message must carry
         self.sent = {}  # number -> set of bytes written under that number (any kind)
         self.new_numbers = []
@@ -262,7 +264,8 @@ class Sim:
 
 def roots():
     outs = (1, 7) if CFG["quick"] else (1, 7, 2 ** 31 - 1)
-    return [(("root", role, so, CFG["S"], CFG["T"]),) for role in ("initiator", "acceptor") for so in outs]
+    rs = [(("root", role, so, CFG["S"], CFG["T"]),) for role in ("initiator", "acceptor") for so in outs]
+    return rs + [(("root", "acceptor", 1, CFG["S"], CFG["T"], "discsend"),)]
 
 
 def run(ctx):
